@@ -850,6 +850,29 @@ pub fn c04(ctx: &mut Ctx) -> Search {
         }
     }
 
+    // well-formed strings whose salt / hash are SHORT (0..=20 bytes) with cheap costs: everything below Argon2's minimum
+    // lengths must be refused by parameter validation, never reach an assertion of the hash core
+    {
+        use base64::Engine;
+        let b64 = base64::engine::general_purpose::STANDARD_NO_PAD;
+        for hl in 0..=20usize {
+            for (sl, alg, tc) in [(16usize, "argon2id", 1u32), (8, "argon2id", 2), (16, "argon2i", 3)] {
+                let (salt, hash) = (ctx.rng.bytes(sl), ctx.rng.bytes(hl));
+                let s = format!("${}$v=19$m=8,t={},p=1${}${}", alg, tc, b64.encode(&salt), b64.encode(&hash));
+                for case in ["pwhash_str_verify", "pwhash_from_string"] {
+                    ctx.run(case, Input::new().b("s", s.as_bytes()))?;
+                }
+            }
+        }
+        for sl in 0..=20usize {
+            let (salt, hash) = (ctx.rng.bytes(sl), ctx.rng.bytes(32));
+            let s = format!("$argon2id$v=19$m=8,t=1,p=1${}${}", b64.encode(&salt), b64.encode(&hash));
+            for case in ["pwhash_str_verify", "pwhash_from_string"] {
+                ctx.run(case, Input::new().b("s", s.as_bytes()))?;
+            }
+        }
+    }
+
     // constructed inputs: Poly1305 accumulator on its edge values
     c04_poly1305_edges(ctx)
 }
